@@ -233,8 +233,13 @@ class Simulator:
             self._initialise_integrator()
             return self
 
-        self.y0 = sim_variables[-1].iloc[-1, :].to_dict() | variables
-        self._time_shift = float(sim_variables[-1].index[-1])
+        t_last = float(sim_variables[-1].index[-1])
+        if self._time_shift == t_last:
+            # nothing simulated since the last override: keep it
+            self.y0 = self.y0 | variables
+        else:
+            self.y0 = sim_variables[-1].iloc[-1, :].to_dict() | variables
+        self._time_shift = t_last
         self._initialise_integrator()
         return self
 
